@@ -863,6 +863,15 @@ func judge(sc *Scenario, entries []discovery.Entry, results []ruleResult, be *si
 			}
 			out.Probes["b_applicable"]++
 			out.Nontrivial = true
+			// pint's range probes start on a 2h boundary, up to 2h before the lookback window: a metric whose last
+			// samples lie in that strip is inside what pint looks at although it is outside the window. What pint
+			// says about it then (gone for good: Bug; comes and goes: Warning) is its reading of a wider window -
+			// but it has to say something: silence is still a miss.
+			slack, err := be.Eval(fmt.Sprintf("count(count_over_time(%s[%ds]))", sel.bare, int64((window+2*time.Hour+10*time.Minute).Seconds())), now)
+			if err != nil {
+				panic(err)
+			}
+			inSlack := len(slack) > 0 && slack[0].F > 0
 			// the same selector text appearing twice is reported once, at its first occurrence
 			bug := false
 			for _, other := range sels {
@@ -870,9 +879,12 @@ func judge(sc *Scenario, entries []discovery.Entry, results []ruleResult, be *si
 					continue
 				}
 				for _, p := range rr.problems {
-					if p.Summary == "query on nonexistent series" && p.Severity == checks.Bug && len(p.Diagnostics) > 0 &&
+					if p.Summary == "query on nonexistent series" && (p.Severity == checks.Bug || inSlack) && len(p.Diagnostics) > 0 &&
 						p.Diagnostics[0].FirstColumn >= other.start && p.Diagnostics[0].LastColumn <= other.end+1 {
 						bug = true
+						if inSlack && p.Severity != checks.Bug {
+							out.Probes["b_last_seen_in_alignment_strip_reported_below_bug"]++
+						}
 					}
 				}
 			}
